@@ -154,4 +154,36 @@ theorem exec_wstep {w w' : World} {op : Op} (h : w.exec op = .ok w') :
     simp [Op.units] at this
     exact ⟨by simpa using items_map_some (fun s hs => hG.outs_lt hs), this.2⟩
 
+/-! ## What fills a vacated port -/
+
+/-- `seq.remove(s)` (the code path of `disconnect_source/sink`, and of `_redock` when a docked
+object is taken over by another unit): the port `s` occupied is filled by a brand-new
+placeholder object whose pointer names the unit, `s` itself is undocked, nothing else in the
+list changes. -/
+theorem remove_spec {nU : Nat} {w w' : SW} {u s : Nat} (hsc : Sc nU w) (h : w.remove u s = .ok w') :
+    ∃ i, (w.sd.lst u).idxOf? s = some i ∧ w'.sd.lst u = (w.sd.lst u).set i w.next ∧
+      w'.next = w.next + 1 ∧ w'.sd.loc w.next = some u ∧ w'.sd.loc s = none := by
+  unfold SW.remove at h
+  simp only [SW.newMissing, SW.replace] at h
+  split at h
+  · cases h
+  · rename_i i hi
+    have hi' : (w.sd.lst u).idxOf? s = some i := hi
+    have hil := idxOf_lt hi'
+    have hmem := idxOf_mem hi'
+    have hget : (w.sd.lst u)[i] = s := (List.idxOf?_eq_some_iff.mp hi').2.1
+    have hsn : s ≠ w.next := by have := hsc.lst_lt u s hmem; omega
+    simp only [SW.setStream] at h
+    rw [dif_pos (by simpa [Side.setLoc] using hil)] at h
+    obtain ⟨w2, hr, h⟩ := bind_ok.mp h
+    cases h
+    simp only [SW.redock, SW.undock, Side.setLoc] at hr
+    have hne : w.next ≠ (w.sd.lst u)[i] := by rw [hget]; exact fun h => hsn h.symm
+    simp only [hne, if_false, if_true] at hr
+    cases hr
+    refine ⟨i, hi', ?_, rfl, ?_, ?_⟩
+    · simp [Side.setLst]
+    · simp [Side.setLst, hne]
+    · simp [Side.setLst, hget]
+
 end ThermoVerif.Network
